@@ -217,7 +217,7 @@ fn field_hostile<F: OracleRepr>(tw: &TowerOf<F>, name: &str, t: &mut Tape<'_>, o
         for val in [Validate::Yes, Validate::No] {
             let mut rd = CountRead::new(&input);
             let res: Result<F, SerializationError> = match fb {
-                0 => no_panic("deserialize", || F::deserialize_with_mode(&mut rd, c, val))?,
+                0 => no_panic("deserialize", || deser::<F, ()>(&mut rd, c, val))?,
                 2 => no_panic("deserialize_with_flags", || F::deserialize_with_flags::<_, SWFlags>(&mut rd).map(|x| x.0))?,
                 _ => no_panic("deserialize_with_flags", || F::deserialize_with_flags::<_, HF<8>>(&mut rd).map(|x| x.0))?,
             };
@@ -411,9 +411,9 @@ where
     for val in [Validate::Yes, Validate::No] {
         let mut rd = CountRead::new(input);
         let res: Result<(Sw<P::BaseField>, bool), SerializationError> = if projective {
-            no_panic("deserialize.projective", || SwProj::<P>::deserialize_with_mode(&mut rd, c, val))?.map(|q| (sw_from_proj::<P>(&q), q.x.canonical() && q.y.canonical() && q.z.canonical()))
+            no_panic("deserialize.projective", || deser::<SwProj<P>, ()>(&mut rd, c, val))?.map(|q| (sw_from_proj::<P>(&q), q.x.canonical() && q.y.canonical() && q.z.canonical()))
         } else {
-            no_panic("deserialize.affine", || SwAffine::<P>::deserialize_with_mode(&mut rd, c, val))?.map(|q| (sw_from_affine::<P>(&q), q.x.canonical() && q.y.canonical()))
+            no_panic("deserialize.affine", || deser::<SwAffine<P>, ()>(&mut rd, c, val))?.map(|q| (sw_from_affine::<P>(&q), q.x.canonical() && q.y.canonical()))
         };
         let mn = format!("{}.{}", cname(c), vname(val));
         ensure!(rd.pos <= size, format!("read-past-size.{}", cname(c)), "{}: {} bytes consumed, advertised size {}", mn, rd.pos, size);
@@ -911,7 +911,7 @@ where
         let mut rd = CountRead::new(input);
         let mn = format!("{}.{}", cname(c), vname(val));
         let res: Result<(Te<P::BaseField>, bool), SerializationError> = if projective {
-            let r = no_panic("deserialize.projective", || TeProj::<P>::deserialize_with_mode(&mut rd, c, val))?;
+            let r = no_panic("deserialize.projective", || deser::<TeProj<P>, ()>(&mut rd, c, val))?;
             match r {
                 Ok(q) => match te_from_proj::<P>(&q) {
                     Some((z, tok)) => Ok((z, tok && q.x.canonical() && q.y.canonical() && q.z.canonical() && q.t.canonical())),
@@ -920,7 +920,7 @@ where
                 Err(e) => Err(e),
             }
         } else {
-            no_panic("deserialize.affine", || TeAffine::<P>::deserialize_with_mode(&mut rd, c, val))?.map(|q| (te_from_affine::<P>(&q), q.x.canonical() && q.y.canonical()))
+            no_panic("deserialize.affine", || deser::<TeAffine<P>, ()>(&mut rd, c, val))?.map(|q| (te_from_affine::<P>(&q), q.x.canonical() && q.y.canonical()))
         };
         ensure!(rd.pos <= size, format!("read-past-size.{}", cname(c)), "{}: {} bytes consumed, advertised size {}", mn, rd.pos, size);
         match res {
@@ -1306,7 +1306,7 @@ where
         for val in [Validate::Yes, Validate::No] {
             let mn = format!("{}.{}", cname(c), vname(val));
             let mut rd = CountRead::new(&input);
-            let res = no_panic("deserialize", || PairingOutput::<E>::deserialize_with_mode(&mut rd, c, val))?;
+            let res = no_panic("deserialize", || deser::<PairingOutput<E>, ()>(&mut rd, c, val))?;
             ensure!(rd.pos <= cx.size, "read-past-size", "{}: {} bytes consumed, advertised size {}", mn, rd.pos, cx.size);
             match res {
                 Ok(f) => {
@@ -1401,7 +1401,7 @@ where
     let limit = 8 + (n + 8) * cx.size[ci(c)];
     for val in [Validate::Yes, Validate::No] {
         let mut rd = CountRead::new(&input);
-        let res = no_panic("deserialize.vec", || Vec::<SwAffine<P>>::deserialize_with_mode(&mut rd, c, val))?;
+        let res = no_panic("deserialize.vec", || deser::<Vec<SwAffine<P>>, ()>(&mut rd, c, val))?;
         ensure!(rd.pos <= limit, "read-past-size", "{} bytes consumed", rd.pos);
         match res {
             Ok(v) => {
@@ -1492,7 +1492,7 @@ fn relations(tier: Tier) -> Vec<Rel> {
 fn main() {
     vh_core::engine::main(PropSpec {
         id: "C10",
-        rule: "Byte strings are built by class and fed to deserialize_with_mode (Affine 3/4, Projective 1/4) in one compression mode and both validation modes, behind a counting reader, followed by 0..16 random padding bytes: (a) valid encodings of subgroup points; (b) 1..3 bit flips, arbitrary flag patterns (generic 2-bit SW / 1-bit TE flags, 3-flag zcash header of curves/bls12_381); (c) compressed x (resp. y) without square root by the harness' Euler criterion; (d) on-curve points outside the subgroup (from small/edge x, r*R, points of small prime order, subgroup point + torsion point; TE: orders 2 and 4), verified by reference multiplication; (e) off-curve (x,y) uncompressed: (t^2 x, t^3 y) with t in the prime subfield, y+1, x+1, random, verified with the harness' curve equation; (f) coordinates + p or with an unused high bit set; (g) truncation to a shorter length; (h) uniform / plausible (all coordinates reduced) / constant bytes. Same for 14 prime fields, 6 towers and PairingOutput of 6 pairings (-g, g*c with c in F_p, arbitrary elements, 0). Toy curves additionally: every 2-byte (1-byte) compressed string and every (x byte, y byte, 5 values of the flag byte) uncompressed string exhaustively, with the expectation derived from the harness' own decoding and point table. Vec<Affine> with hostile length prefixes runs in a child process under an allocation guard. Oracles: no panic; bytes consumed <= serialized_size; Validate::Yes and Ok(P) => coordinates reduced, curve equation holds as evaluated by vh_core::curve, r*P = O by double-and-add over double_in_place/+= (toy: affine oracle law); classes (c)-(f) must be Err with Validate::Yes; class (a) must be Ok with the same point; PairingOutput: f^r = 1 by square-and-multiply. Non-trivial: class other than (a); distinct = distinct decoded choice sequences.",
+        rule: "Byte strings are built by class and fed to deserialize_with_mode or, for about half of the strings (a hash of the bytes decides), to the convenience method documented as its synonym (deserialize_compressed / _unchecked / deserialize_uncompressed / _unchecked) (Affine 3/4, Projective 1/4) in one compression mode and both validation modes, behind a counting reader, followed by 0..16 random padding bytes: (a) valid encodings of subgroup points; (b) 1..3 bit flips, arbitrary flag patterns (generic 2-bit SW / 1-bit TE flags, 3-flag zcash header of curves/bls12_381); (c) compressed x (resp. y) without square root by the harness' Euler criterion; (d) on-curve points outside the subgroup (from small/edge x, r*R, points of small prime order, subgroup point + torsion point; TE: orders 2 and 4), verified by reference multiplication; (e) off-curve (x,y) uncompressed: (t^2 x, t^3 y) with t in the prime subfield, y+1, x+1, random, verified with the harness' curve equation; (f) coordinates + p or with an unused high bit set; (g) truncation to a shorter length; (h) uniform / plausible (all coordinates reduced) / constant bytes. Same for 14 prime fields, 6 towers and PairingOutput of 6 pairings (-g, g*c with c in F_p, arbitrary elements, 0). Toy curves additionally: every 2-byte (1-byte) compressed string and every (x byte, y byte, 5 values of the flag byte) uncompressed string exhaustively, with the expectation derived from the harness' own decoding and point table. Vec<Affine> with hostile length prefixes runs in a child process under an allocation guard. Oracles: no panic; bytes consumed <= serialized_size; Validate::Yes and Ok(P) => coordinates reduced, curve equation holds as evaluated by vh_core::curve, r*P = O by double-and-add over double_in_place/+= (toy: affine oracle law); classes (c)-(f) must be Err with Validate::Yes; class (a) must be Ok with the same point; PairingOutput: f^r = 1 by square-and-multiply. Non-trivial: class other than (a); distinct = distinct decoded choice sequences.",
         assumptions: &[
             "hostile encodings of (c)-(e) are produced with arkworks' own serializer from unchecked points (C09 checks the serializer); (f) and flag mutations use the harness' description of the byte layout (size.layout fails if it disagrees with serialized_size)",
             "Validate::No carries no validity requirement (only no panic / bounded read); truncated inputs carry no Err requirement beyond the generic oracle",
